@@ -410,6 +410,12 @@ def before_trading_steps(cx):
                 ins = cx.ins(oid)
                 fut = ins['kind'] == 'Future'
                 gone = oid not in a1['pos']
+                try:
+                    ents = '; '.join('(%s, %s)' % (pcfg_lit(ins, dn), pos_lit(pp, last_override=0.0 if pp['last'] is None else None)) for dn, pp in ps.items())
+                    cx.case('bt.purge', 'chk_purge [%s] %s' % (ents, blit(gone)), dict(oid=oid, gone=gone, pre=ps, dt=s1['cal']))
+                    cx.keys.add(repr(('PURGE', ins['kind'], gone, any(pp.get('recv') for pp in ps.values()), any(pp['qty'] for pp in ps.values()))))
+                except Skip:
+                    cx.skipped += 1
                 for dname, p in ps.items():
                     if gone:
                         if abs(p['qty']) > 1e-9 or (p.get('recv') and abs(p['recv'][1]) > 1e-12):
